@@ -22,6 +22,10 @@ var intB = []int64{0, 1, -1, 2, 3, 7, -7, 10, 63, 64, 1 << 31, 1 << 53, math.Max
 var floatB = []float64{0.0, 1.0, -1.0, 0.5, -0.5, 2.0, 2.5, 3.0, -7.0, 1e-9, 1e10, 1e300, -1e300, 0.1}
 var ops = []string{"+", "-", "*", "/", "%", "**"}
 
+// intOps only take Int operands (shifts by negative or >= 64 counts are
+// checked runtime errors in the VM; a folder must reproduce that, not crash).
+var intOps = []string{"<<", ">>", "&", "|", "^"}
+
 func lit(isF bool, i int) gen.Expr {
 	if isF {
 		return &gen.FloatLit{V: floatB[i]}
@@ -147,6 +151,12 @@ type witness struct {
 // differential runs src both ways. exprs are the constant-bearing expressions
 // of the program (for the zero-divisor judgement).
 func differential(r *ev.Run, src string, exprs []gen.Expr, lines []string) (nontrivial bool) {
+	defer func() {
+		if p := recover(); p != nil {
+			r.Violation("panic", witness{Program: src, Lines: lines, What: fmt.Sprintf("panic while compiling / running the two builds: %v", p)})
+			nontrivial = false
+		}
+	}()
 	zero := false
 	for _, e := range exprs {
 		if hasConstZeroDivisor(e) {
@@ -221,6 +231,9 @@ func (g *cgen) expr(depth int, wantFloat bool) gen.Expr {
 	op := ev.PickOne(r, ops)
 	l := g.expr(depth-1, wantFloat && r.Bool())
 	rr := g.expr(depth-1, wantFloat && r.Bool())
+	if !wantFloat && typeOf(l) == gen.TInt && typeOf(rr) == gen.TInt && r.Intn(4) == 0 {
+		op = ev.PickOne(r, intOps)
+	}
 	if wantFloat && typeOf(l) != gen.TFloat && typeOf(rr) != gen.TFloat {
 		rr = &gen.FloatLit{V: ev.PickOne(r, floatB)}
 	}
@@ -235,7 +248,7 @@ type cgen struct {
 func TestC02(t *testing.T) {
 	r := ev.Start(t, "C02", "translation_validation")
 	defer r.Finish()
-	r.Rule("every program is compiled twice by the real compiler (optimisation on / DisableOptimisation) and run on the same lines; per-line store snapshot and runtime-error bit must agree. (a) exhaustive grid: 6 operators x {Int,Float}^2 operand kinds x all pairs of boundary literals; (b) random programs with nested constant trees (depth<=4) in every expression position (assignment, +=, index key, comparison operand, builtin argument, settime) with non-constant siblings. Non-trivial: both compiles accepted and the program executed; distinct by program text.")
+	r.Rule("every program is compiled twice by the real compiler (optimisation on / DisableOptimisation) and run on the same lines; per-line store snapshot and runtime-error bit must agree. (a) exhaustive grid: 6 arithmetic operators x {Int,Float}^2 operand kinds + 5 shift/bitwise operators on Int x Int, x all pairs of boundary literals; (b) random programs with nested constant trees (depth<=4) in every expression position (assignment, +=, index key, comparison operand, builtin argument, settime) with non-constant siblings. Non-trivial: both compiles accepted and the program executed; distinct by program text.")
 	r.Assume("'literal zero' is read as 'constant sub-expression whose value is zero' (lenient: 1/(2-2) may be rejected)", "only the runtime-error bit is compared, not the message (positions legitimately differ after folding)")
 
 	// (a) exhaustive single-operator grid
@@ -256,6 +269,13 @@ func TestC02(t *testing.T) {
 			}
 		}
 	}
+	for _, op := range intOps {
+		for i := 0; i < 14; i++ {
+			for j := 0; j < 14; j++ {
+				cells = append(cells, cell{op, false, false, i, j})
+			}
+		}
+	}
 	ev.Parallel(len(cells), runtime.GOMAXPROCS(0), func(k int) {
 		c := cells[k]
 		e := bin(c.op, lit(c.lf, c.i), lit(c.rf, c.j))
@@ -266,7 +286,7 @@ func TestC02(t *testing.T) {
 		r.Eval(1)
 		r.Count("grid_cells", 1)
 	})
-	r.Set("grid", "exhaustive: 6 ops x 4 operand-kind pairs x 14x14 boundary literal pairs = 4704 single-operator programs")
+	r.Set("grid", "exhaustive: 6 arithmetic ops x 4 operand-kind pairs x 14x14 boundary literal pairs + 5 shift/bitwise ops x Int x Int x 14x14 = 5684 single-operator programs")
 	r.Sample(map[string]any{"grid_example": "gauge g\n/^/ {\n  g = 7 % 2.0\n}\n"})
 
 	// (b) random programs
